@@ -48,6 +48,10 @@ polar = { (!b ~ ANY ~ a) | a ~ a }
 notsoi = { (!SOI ~ b)? ~ a+ }
 eoipred = { &SOI ~ a ~ (b | &EOI) }
 polar2 = { !(a ~ b) ~ a ~ "c" }
+tree3 = { usesilent ~ seq ~ rep }
+tree4 = { tree3 ~ (tree3 | choice)? }
+marker = { &b }
+optempty = { a ~ marker? ~ b? ~ (marker | "c")? }
 "# } }
 
 mod p {
@@ -91,6 +95,10 @@ polar = { (!b ~ ANY ~ a) | a ~ a }
 notsoi = { (!SOI ~ b)? ~ a+ }
 eoipred = { &SOI ~ a ~ (b | &EOI) }
 polar2 = { !(a ~ b) ~ a ~ "c" }
+tree3 = { usesilent ~ seq ~ rep }
+tree4 = { tree3 ~ (tree3 | choice)? }
+marker = { &b }
+optempty = { a ~ marker? ~ b? ~ (marker | "c")? }
 "#]
     pub struct P;
 }
@@ -136,6 +144,10 @@ polar = { (!b ~ ANY ~ a) | a ~ a }
 notsoi = { (!SOI ~ b)? ~ a+ }
 eoipred = { &SOI ~ a ~ (b | &EOI) }
 polar2 = { !(a ~ b) ~ a ~ "c" }
+tree3 = { usesilent ~ seq ~ rep }
+tree4 = { tree3 ~ (tree3 | choice)? }
+marker = { &b }
+optempty = { a ~ marker? ~ b? ~ (marker | "c")? }
 "#]
     pub struct T;
 }
@@ -167,7 +179,7 @@ fn skip_trailing(s: &str, mut p: usize) -> usize {
 fn rule_matches_at(name: &str, s: &str, loc: usize) -> Option<bool> {
     let pos = Position::new(s, loc)?;
     macro_rules! d { ($($r:ident),*) => { match name { $( stringify!($r) => Some(t::pairs::$r::try_check_partial(pos).is_ok()), )* "EOI" => Some(loc == s.len()), _ => None } } }
-    d!(builtin, stk2, pushskip, deep, deep_n, deep_na, a, b, seq, seq_atomic, seq_compound, seq_nonatomic, nest, nest2, rep, rep_n, choice, opt, pred, usesilent, stack, insens, nl, soi, anyrule, atomic_via_silent, compound_via_silent, insens2, untilc, polar, notsoi, eoipred, polar2)
+    d!(builtin, stk2, pushskip, deep, deep_n, deep_na, a, b, seq, seq_atomic, seq_compound, seq_nonatomic, nest, nest2, rep, rep_n, choice, opt, pred, usesilent, stack, insens, nl, soi, anyrule, atomic_via_silent, compound_via_silent, insens2, untilc, polar, notsoi, eoipred, polar2, tree3, tree4, marker, optempty)
 }
 /// C10 truthfulness: every rule listed as expected fails at the location, every rule listed as unexpected matches there
 fn truthful(msg: &str, s: &str, loc: usize) -> Result<(), String> {
@@ -382,9 +394,14 @@ fn all_rules(s: &str, cases: &mut u64) -> Result<(), String> {
     check_rule!(notsoi, false, s, cases);
     check_rule!(eoipred, false, s, cases);
     check_rule!(polar2, false, s, cases);
+    check_rule!(tree3, false, s, cases);
+    check_rule!(tree4, false, s, cases);
+    check_rule!(marker, false, s, cases);
+    check_rule!(optempty, false, s, cases);
     check_tree!(a, s, cases); check_tree!(seq, s, cases); check_tree!(seq_nonatomic, s, cases); check_tree!(rep, s, cases); check_tree!(rep_n, s, cases);
     check_tree!(choice, s, cases); check_tree!(opt, s, cases); check_tree!(pred, s, cases); check_tree!(usesilent, s, cases); check_tree!(stack, s, cases);
     check_tree!(insens, s, cases); check_tree!(nl, s, cases); check_tree!(soi, s, cases); check_tree!(eoipred, s, cases);
+    check_tree!(tree3, s, cases); check_tree!(tree4, s, cases); check_tree!(optempty, s, cases); check_tree!(deep_n, s, cases); check_tree!(nl, s, cases);
     Ok(())
 }
 fn all_sub(s: &str, cases: &mut u64) -> Result<(), String> {
@@ -418,7 +435,7 @@ fn nb_gen_vs_pest() {
             Err(_) => { println!("NB-RESULT name=nb_gen_vs_pest status=fail cases={} key=input={:?} detail=C09: panic", cases, s); return; }
         }
     }
-    println!("NB-RESULT name=nb_gen_vs_pest status=ok cases={} key=- detail=32 rules x all strings<={} chars over 3 alphabets: verdict/offset/tree vs pest, check==parse incl. error text, full parse, error location, traversal helpers", cases, l);
+    println!("NB-RESULT name=nb_gen_vs_pest status=ok cases={} key=- detail=36 rules x all strings<={} chars over 3 alphabets: verdict/offset/tree vs pest, check==parse incl. error text, full parse, error location, traversal helpers", cases, l);
 }
 #[test]
 fn nb_gen_subinput() {
